@@ -12,7 +12,7 @@ import json
 import os
 import shutil
 
-from .. import tlc, sandbox, wsession, layouts
+from .. import tlc, sandbox, wsession, layouts, lifecycle
 from ..common import import_py7zr, rng, scratch, MachineryError
 from .C15 import validate
 
@@ -174,6 +174,17 @@ def run(tier, rep, ev):
     if traces:
         ev.sample({"trace": [{k: v for k, v in e.items() if k != "metas"} for e in traces[len(traces) // 2]][:12]})
     validate("C08", traces, rep, ev, classify_fn=classify, origins=origins)
+    # ---- the appending object around its write calls: read-side calls in between, calls after close(), several closes, the caller's
+    # stream standing anywhere (Lifecycle.tla; negative control: probing at the stream's position loses the base)
+    rl = tlc.run("Lifecycle", "Lifecycle.cfg", workers=4)
+    ev.add_tlc(rl, "Lifecycle(calls<=5)")
+    if not rl.ok:
+        rep.note_drift(f"Lifecycle model violates {rl.violated}")
+    rln = tlc.run("Lifecycle", "Lifecycle_norewind.cfg", workers=4)
+    ev.cov["negative_control_lifecycle"] = {"cfg": "Lifecycle_norewind.cfg", "violated": rln.violated or "NOTHING"}
+    if rln.ok:
+        raise MachineryError("negative control failed: an appender that probes at the stream's position satisfies AppendKeeps")
+    lifecycle.run("C08", ("a",), tier, R, rep, ev, validate)
     ev.cov["exhaustive"] = False
     ev.cov["rule"] = ("TLC-enumerated fault-free histories (<=3 sessions) x random filter chain/header mode per session x path/stream; "
                       f"{nlay} reference-writer layouts + third-party fixtures as foreign bases with random append sessions; "
